@@ -285,6 +285,10 @@ def run(ctx):
             for h in (None, "Basic " + b64("c1:s1"), "Basic " + b64("c1:bad")):
                 for ep in ("token", "introspection"):
                     run_authenticate(ctx, clients, h, None, None, make_assertion(rng, v), ms, ep, {"used-1"})
+            # an assertion together with a form/query client_id naming the same or ANOTHER client
+            for fc, q in ((("ck", None), None), (("cj", None), None), (("c1", None), None), (("c2", "s2"), None),
+                          (("pub", None), None), (None, "ck"), (("zz", None), None)):
+                run_authenticate(ctx, clients, None, fc, q, make_assertion(rng, v), ms, "token", {"used-1"})
     run_endpoints(ctx, clients)
 
 
